@@ -616,9 +616,10 @@ def finish(run, level="model_checking", reexec=None, extra_cov=None):
     cov["notes"] = run.notes
     ev = dict(property_id=run.pid, tier=run.tier, seed=run.seed, level=level, coverage=cov,
               assumptions=run.assumptions, wall_s=round(time.time() - run.t0, 1), violations=violations)
-    os.makedirs(os.path.join(ROOT, "evidence"), exist_ok=True)
-    with open(os.path.join(ROOT, "evidence", run.pid + ".json"), "w") as f:
-        json.dump(ev, f, indent=1)
+    if not getattr(run, "is_replay", False):      # a replay re-executes one stored plan; it is not a coverage run
+        os.makedirs(os.path.join(ROOT, "evidence"), exist_ok=True)
+        with open(os.path.join(ROOT, "evidence", run.pid + ".json"), "w") as f:
+            json.dump(ev, f, indent=1)
     log("%s %s tier=%s seed=%d: states=%d transitions=%d traces=%d events=%d violations=%d wall=%.1fs" % (
         "FAIL" if violations else ("INCONCLUSIVE" if inconclusive else "PASS"), run.pid, run.tier, run.seed,
         cov["states"], cov["transitions"], cov["traces_validated_against_impl"], cov["evaluations"], violations,
